@@ -613,8 +613,20 @@ def _build_and_run(tier, seed, profiles, decls_override=None):
         nf_lines = ["%s %s %s %s" % ("nfcmp" if eq else "nfcmpx", n, it, flat(sx)) for (n, it, sx, eq) in nf_todo]
         was_equal = {(n, it): eq for (n, it, _, eq) in nf_todo}
         nf_terms = {}
-        for line in run_driver(proto + nf_lines):
+        # a few normal forms written out for the evidence (getter and setter of range-list / array fields)
+        show_lines = []
+        for (n, it, _, _) in nf_todo:
+            dd = table.get(n)
+            if dd and it not in ("raw_value", "new_with_raw_value") and dd["base"] in ("u16", "u24", "u32") and \
+                    any(c in dd["classes"] for c in ("range-lists", "arrays", "signed")) and len(show_lines) < 6 and \
+                    sum(1 for l in show_lines if l.startswith("nfshow %s " % n)) < 2:
+                show_lines.append("nfshow %s %s %s" % (n, it, "1" if any(f.get("count") for f in dd["fields"] if f["name"] == it or it.endswith("_" + f["name"])) else "-"))
+        nf["samples"] = []
+        for line in run_driver(proto + nf_lines + show_lines):
             w = line.split(" ")
+            if w[0] == "nfshown":
+                nf["samples"].append(line[len("nfshown "):][:1200])
+                continue
             if w[0] == "nfterm":
                 nf_terms.setdefault(" ".join(w[3:]), (w[1], w[2]))
                 continue
